@@ -34,6 +34,13 @@ CHECKS = {
  "C16": ("stategraph", "explicit-state BFS over method sequences on a real BigInt receiver with canonical state hashing, every transition mirrored on a math/big.Int object graph with identical aliasing",
          "States are receivers (value, representation class inline+/inline-/heap-small/heap) reached by method sequences to depth 2 (3 thorough); from every state every method x argument tuple x alias pattern of the alphabet is applied to the real BigInt and to a *big.Int mirror; all observers (Sign, BitLen, Cmp, text in 5 bases, bytes, bits, 64-bit conversions, encoders, fmt verbs), panic parity, argument immutability and representation invariants (no negative zero) are compared on every transition.",
          "math/big is the reference; only alias patterns math/big supports; receiver undefined after a failed SetString is not observed.", "4/C16"),
+
+ "C13": ("opspace", "exhaustive enumeration of a finite Decimal/float64 space through every producer x consumer pair on the real code (round-trip identity oracle)",
+         "Every Decimal of the text space (all switch-over exponents, package limits, zero window, specials) through 12 producers x 5 consumers with field-wise identity; Compose(Decompose) with 4 buffer shapes x 7 destination pre-states; SetFloat64/Float64 bit identity and shortest-coefficient on 2 x 2048 exponents x 220 mantissa patterns.",
+         "strconv.ParseFloat trusted for float nearest-ness; canonical non-finite values only (payloads are documented as ignored).", "4/C13"),
+ "C14": ("opspace", "exhaustive enumeration of all token strings up to a length bound (language membership against a hand-written recogniser) and of a finite Decimal x verb x flag x width product against an independent formatter",
+         "String/Text byte-for-byte against an independent to-scientific-string formatter on the text space; Format under 13 verbs x 32 flag subsets x 17 widths; parser language membership for every string of <= 5 (6 thorough) tokens over a 29-token alphabet, multi-token combinations, all single and bounded double edits of 39 grammatical seeds and the exponent-limit family, through five entry points that must agree.",
+         "The recogniser and formatter are written from the GDA text; the string space is bounded by length.", "4/C14"),
 }
 
 NOT_YET = {}
